@@ -18,7 +18,16 @@ pub broadcast axiom fn axiom_cloned_string(a: String, b: String)
 // std's Hash/Eq for String are deterministic and consistent (vstd ships this axiom for integers and bool only)
 pub broadcast axiom fn axiom_string_obeys_key_model()
     ensures #[trigger] vstd::std_specs::hash::obeys_key_model::<String>();
+// `==` on String is equality of the strings (vstd leaves PartialEqSpec for String unspecified), and Strings are extensional
+pub broadcast axiom fn axiom_string_obeys_eq_spec()
+    ensures #[trigger] <String as vstd::std_specs::cmp::PartialEqSpec>::obeys_eq_spec();
+pub broadcast axiom fn axiom_string_eq_spec(a: String, b: String)
+    ensures #[trigger] vstd::std_specs::cmp::PartialEqSpec::eq_spec(&a, &b) == (a == b);
+pub broadcast axiom fn axiom_string_ext(a: String, b: String)
+    requires #[trigger] a@ == #[trigger] b@,
+    ensures a == b;
 pub broadcast group group_clone_is_copy {
+    axiom_string_obeys_eq_spec, axiom_string_eq_spec,
     axiom_string_obeys_key_model,
     axiom_cloned_result_pair, axiom_cloned_rc_json, axiom_cloned_opt_json, axiom_cloned_json, axiom_cloned_string,
 }
